@@ -1,4 +1,4 @@
-\* C18 thorough (simulation; sampled-trace filter on): 2 threads, <= 4 spans, <= 6 frames, 2 tasks (async siblings), nesting <= 3, all seven headers; random behaviours of depth 18 replayed.
+\* C18 thorough (simulation; sampled-trace filter on): 2 threads, <= 4 spans, <= 6 frames, 2 tasks (async siblings), nesting <= 3, all eight headers (incl. invalid: no ids, span id only, trace id only); random behaviours of depth 18 replayed.
 SPECIFICATION Spec
 CONSTANTS
     NThreads = 2
